@@ -49,6 +49,20 @@ type vIdealCipher struct {
 	user     string
 }
 
+// vIncNonce: +1 on the 192-bit big-endian integer (what cipher.increaseNonce
+// does; H9.5).  The EFFECTIVE nonce of the k-th encryption of a direction is
+// initial nonce + k - the ideal cipher must identify (N, k) with (N+k, 0), or
+// it would be stronger than the real one.
+func vIncNonce(n *[24]byte) {
+	carry := true
+	for j := 23; j >= 0; j-- {
+		if carry {
+			n[j]++
+			carry = n[j] == 0
+		}
+	}
+}
+
 func (c *vIdealCipher) record(nonce *[24]byte, ctr uint64, pt []byte, ct []byte) {
 	st := c.st
 	vAssume(st.nseal < vMaxSeals)
@@ -87,16 +101,12 @@ func (c *vIdealCipher) Encrypt(dst, plaintext []byte) error {
 			c.nonce, c.hasNonce, c.ctr = nonce, true, 0
 		}
 	} else {
-		c.ctr++
+		vIncNonce(&c.nonce) // implicit mode: the 192-bit nonce itself counts up, as in the real cipher
 		nonce = c.nonce
 	}
 	ct := vNondetBytes("ct", vMaxPT+16)[:len(plaintext)+16]
 	copy(out[off:], ct)
-	ctr := c.ctr
-	if !c.implicit {
-		ctr = 0
-	}
-	c.record(&nonce, ctr, plaintext, ct)
+	c.record(&nonce, 0, plaintext, ct)
 	return nil
 }
 
@@ -139,9 +149,9 @@ func (c *vIdealCipher) Decrypt(ciphertext []byte) ([]byte, error) {
 			c.hasNonce, c.ctr = true, 0
 			ciphertext = ciphertext[24:]
 		} else {
-			c.ctr++
+			vIncNonce(&c.nonce)
 		}
-		return c.open(&c.nonce, c.ctr, ciphertext)
+		return c.open(&c.nonce, 0, ciphertext)
 	}
 	if len(ciphertext) < 24 {
 		return nil, fmt.Errorf("ciphertext is smaller than nonce size")
@@ -392,3 +402,55 @@ func vH_C04_tcp_tamper() {
 		vAssert(et == stderror.CRYPTO_ERROR || et == stderror.PROTOCOL_ERROR || et == stderror.NETWORK_ERROR || et == stderror.REPLAY_ERROR, "a rejected stream yields a typed error (the event loop would otherwise panic)")
 	}
 }
+
+// ---- H4.1p: TCP prefix property over two genuine segments ----
+//
+// A client writes two data segments A then B (one byte each, no padding).
+// The server parses an ARBITRARY byte string of the length of the first
+// segment's wire image (nonce + metadata + payload).  The first segment the
+// receiver returns, if any, must be A - never B: the data delivered is a
+// prefix of the data sent.
+//
+// region of known finding C04-n: the 24 nonce bytes on the wire differ from
+// the genuine ones (the initial nonce travels in the clear and is not bound to
+// anything the receiver checks: rewriting it to N+1 and deleting A's bytes
+// makes B authenticate as the first segment).
+func vTCPPrefix(onlyRegion bool) {
+	st := &vIdealState{}
+	block := &vIdealCipher{st: st, key: 1, user: "alice"}
+	block.SetImplicitNonceMode(true)
+	vServerRecvTemplate = block
+	cconn := &vFakeConn{}
+	client := &StreamUnderlay{baseUnderlay: *newBaseUnderlay(true, 1400, nil), conn: cconn, block: block}
+	mk := func(tag string, seq uint32) *segment {
+		return &segment{metadata: &dataAckStruct{baseStruct: baseStruct{protocol: uint8(dataClientToServer)}, sessionID: 7, seq: seq, payloadLen: 1},
+			payload: vNondetBytes(tag, 1), transport: common.StreamTransport}
+	}
+	a, b := mk("A", 5), mk("B", 6)
+	vPadPlan, vPadCalls = [4]int{0, 0, 0, 0}, 0
+	vAssert(client.writeOneSegment(a) == nil && client.writeOneSegment(b) == nil, "genuine writes succeed")
+	vAssume(len(cconn.out) == 24+65+65)
+	wire := vNondetBytes("wire", 89)
+	nonceGenuine := true
+	for i := 0; i < 24; i++ {
+		if wire[i] != cconn.out[i] {
+			nonceGenuine = false
+		}
+	}
+	if onlyRegion {
+		vAssume(!nonceGenuine)
+	} else if vKnown("C04-n") {
+		vAssume(nonceGenuine)
+	}
+	sconn := &vFakeConn{in: wire}
+	server := &StreamUnderlay{baseUnderlay: *newBaseUnderlay(false, 1400, nil), conn: sconn}
+	got, err := server.readOneSegment()
+	if err == nil && got != nil {
+		gs, _ := got.Seq()
+		vAssert(gs == 5, "the first segment delivered is the first segment sent (the data read is a prefix of the data written)")
+		vAssert(len(got.payload) == 1 && got.payload[0] == a.payload[0], "and carries its payload")
+	}
+}
+
+func vH_C04_tcp_prefix()               { vTCPPrefix(false) }
+func vH_C04_tcp_prefix_nonce_rewrite() { vTCPPrefix(true) }
